@@ -582,6 +582,11 @@ def engine_key(seed, tier):
     return hashlib.sha1(('|'.join(h) + '|%s|%s' % (seed, tier)).encode()).hexdigest()[:16]
 
 
+IMPLICIT = {90: 'Mutex::lock', 91: 'Semaphore::acquire', 92: 'Semaphore::try_acquire', 93: 'Semaphore::add_permits',
+            94: 'Semaphore::close', 95: 'Semaphore::is_closed', 96: 'Semaphore::available_permits', 97: 'an atomic load',
+            98: 'an atomic update'}
+
+
 def analyze(traces, mobs_all):
     """-> summary per property"""
     summ = {p: dict(mismatches=[], monitor_fails=[], evaluations=0, nontrivial=set(), steps=0) for p in PROPS}
@@ -589,6 +594,7 @@ def analyze(traces, mobs_all):
     outcome_hist = Counter()
     result_hist = Counter()
     op_hist = Counter()
+    implicit_seen = 0
     harness_errs = []
     for ti, (t, mo) in enumerate(zip(traces, mobs_all)):
         if 'err' in t:
@@ -617,6 +623,7 @@ def analyze(traces, mobs_all):
             for c in P[-1]['tasks']:
                 if c >= 100:
                     result_hist[c - 100] += 1
+        implicit_seen += sum(1 for d in P for c in d['tasks'] if 90 <= c <= 98)
         fails = monitor_trace(t, P)
         for p in PROPS:
             s = summ[p]
@@ -636,13 +643,19 @@ def analyze(traces, mobs_all):
                     break
                 a, b = proj(d), proj(m)
                 if a != b:
-                    s['mismatches'].append(dict(trace=ti, step=i, what='projection differs', impl=repr(a), model=repr(b)))
+                    what = 'projection differs'
+                    imp = [(j, c) for j, c in enumerate(d['tasks']) if 90 <= c <= 98]
+                    if imp:
+                        what = ('implicit schedule point reached: task %d performs %s away from its explicit schedule point '
+                                'and outside the lock region - a window the model (and the code it was written from) '
+                                'does not have' % (imp[0][0], IMPLICIT.get(imp[0][1], imp[0][1])))
+                    s['mismatches'].append(dict(trace=ti, step=i, what=what, impl=repr(a), model=repr(b)))
                     break
     for p in PROPS:
         summ[p]['nontrivial'] = len(summ[p]['nontrivial'])
     return dict(props=summ, histograms=dict(labels=dict(label_hist), outcomes=dict(outcome_hist),
                                             results={str(k): v for k, v in result_hist.items()},
-                                            ops=dict(op_hist)),
+                                            ops=dict(op_hist), implicit_schedule_points_reached=implicit_seen),
                 harness_errs=harness_errs)
 
 
